@@ -44,9 +44,12 @@ class Path:
     ret: object = None
     raised: Optional[str] = None
     end: Optional[ast.AST] = None
+    lits: Dict[str, ast.AST] = field(default_factory=dict)  # locals bound to a list/dict display and extended in place since
 
     def fork(self) -> "Path":
-        return Path(self.conds, dict(self.env), dict(self.stores), dict(self.named_stores), dict(self.origin), list(self.calls), self.ret, self.raised, self.end)
+        q = Path(self.conds, dict(self.env), dict(self.stores), dict(self.named_stores), dict(self.origin), list(self.calls), self.ret, self.raised, self.end)
+        q.lits = {k: clone_ast(v) for k, v in self.lits.items()}
+        return q
 
     def has(self, text_pol) -> bool:
         return text_pol in self.conds
@@ -225,11 +228,13 @@ def fold(t: ast.AST) -> Optional[bool]:
 
 
 class PathEval:
-    def __init__(self, func: ast.AST, bindings: Optional[Dict[str, ast.AST]] = None, post=None, max_paths: int = 400):
+    def __init__(self, func: ast.AST, bindings: Optional[Dict[str, ast.AST]] = None, post=None, max_paths: int = 400, call_hook=None):
         self.func = func
         self.bindings = dict(bindings or {})
         self.post = post
         self.max_paths = max_paths
+        # call_hook(call) -> paths of a helper the caller wants looked through (or None)
+        self.call_hook = call_hook
         self.done: List[Path] = []
         self.truncated = False
 
@@ -252,6 +257,24 @@ class PathEval:
         marked = [n for n in ast.walk(c0) if isinstance(n, ast.Call)]
         for n in marked:
             n._orig = True  # calls written in this expression (not the ones substituted into it)
+        if p.lits:
+            for c in ast.walk(c0):
+                if isinstance(c, ast.Call):
+                    args = []
+                    for a in c.args:
+                        if isinstance(a, ast.Starred) and isinstance(a.value, ast.Name) and isinstance(p.lits.get(a.value.id), (ast.List, ast.Tuple)):
+                            args.extend(clone_ast(e) for e in p.lits[a.value.id].elts)
+                        else:
+                            args.append(a)
+                    c.args = args
+                    kws = []
+                    for k in c.keywords:
+                        d = p.lits.get(k.value.id) if k.arg is None and isinstance(k.value, ast.Name) else None
+                        if isinstance(d, ast.Dict) and all(isinstance(kk, ast.Constant) and isinstance(kk.value, str) for kk in d.keys):
+                            kws.extend(ast.keyword(arg=kk.value, value=clone_ast(vv)) for kk, vv in zip(d.keys, d.values))
+                        else:
+                            kws.append(k)
+                    c.keywords = kws
         x = _Sub(p.env).visit(c0)
         for c in ast.walk(x):
             if isinstance(c, ast.Call) and getattr(c, "_orig", False):
@@ -297,10 +320,32 @@ class PathEval:
             a.conds = a.conds + tuple(sorted(atoms(t, True)))
             b.conds = b.conds + tuple(sorted(atoms(t, False)))
             return self.block(s.body, [a]) + self.block(s.orelse, [b])
+        if self.call_hook is not None and isinstance(s, (ast.Assign, ast.Expr, ast.Return)) and isinstance(s.value, ast.Call):
+            looked = self._through_helper(s, p)
+            if looked is not None:
+                return looked
         if isinstance(s, ast.Assign):
             v = self.sub(s.value, p)
             for t in s.targets:
                 self.assign(t, v, p)
+                if isinstance(t, ast.Name):
+                    if isinstance(s.value, (ast.List, ast.Dict)) and len(s.targets) == 1:
+                        p.lits[t.id] = clone_ast(v)
+                    else:
+                        p.lits.pop(t.id, None)
+                elif isinstance(t, ast.Subscript) and isinstance(t.value, ast.Name) and isinstance(p.lits.get(t.value.id), ast.Dict):
+                    d = p.lits[t.value.id]
+                    k = self.sub(t.slice, p.fork())
+                    if isinstance(k, ast.Constant):
+                        for i, kk in enumerate(d.keys):
+                            if isinstance(kk, ast.Constant) and kk.value == k.value:
+                                d.values[i] = v
+                                break
+                        else:
+                            d.keys.append(k)
+                            d.values.append(v)
+                    else:
+                        p.lits.pop(t.value.id, None)
             return [p]
         if isinstance(s, ast.AnnAssign):
             if s.value is not None:
@@ -318,6 +363,20 @@ class PathEval:
             return [p]
         if isinstance(s, ast.Expr):
             v = self.sub(s.value, p)
+            # acc.append(x) / acc.extend([..]) / d.update(k=v) on a local bound to a display
+            if isinstance(v, ast.Call) and isinstance(s.value, ast.Call) and isinstance(s.value.func, ast.Attribute) and isinstance(s.value.func.value, ast.Name):
+                nm, meth = s.value.func.value.id, s.value.func.attr
+                lit = p.lits.get(nm)
+                if isinstance(lit, ast.List) and meth == "append" and len(v.args) == 1 and not v.keywords:
+                    lit.elts.append(v.args[0])
+                elif isinstance(lit, ast.List) and meth == "extend" and len(v.args) == 1 and isinstance(v.args[0], (ast.List, ast.Tuple)):
+                    lit.elts.extend(v.args[0].elts)
+                elif isinstance(lit, ast.Dict) and meth == "update" and not v.args and all(k.arg for k in v.keywords):
+                    for k in v.keywords:
+                        lit.keys.append(ast.Constant(k.arg))
+                        lit.values.append(k.value)
+                elif lit is not None and meth not in ("copy", "index", "count", "get", "keys", "values", "items"):
+                    p.lits.pop(nm, None)
             # setattr(o, "name", v) is the store o.name = v
             if isinstance(v, ast.Call) and isinstance(v.func, ast.Name) and v.func.id == "setattr" and len(v.args) == 3 and isinstance(v.args[1], ast.Constant) and isinstance(v.args[1].value, str) and v.args[1].value.isidentifier():
                 p.stores[text(ast.Attribute(value=v.args[0], attr=v.args[1].value, ctx=ast.Load()))] = v.args[2]
@@ -362,6 +421,9 @@ class PathEval:
                 self.sub(s.iter, p)
             for nme in bound:
                 p.env[nme] = ast.Name(id=f"{nme}__L{s.lineno}", ctx=ast.Load())
+            for x in ast.walk(s):
+                if isinstance(x, ast.Name) and x.id in p.lits:
+                    p.lits.pop(x.id, None)
             # record the calls of the body once (loop variable opaque); returns inside end the path there
             n_done = len(self.done)
             inner = self.block(s.body, [p.fork()])
@@ -410,6 +472,44 @@ class PathEval:
             self.done.append(p)
             return []
         return [p]  # pass, import, global
+
+    def _through_helper(self, s, p: Path):
+        """`x = helper(..)`, `helper(..)`, `return helper(..)` where the hook knows
+        the helper's own paths: the caller's path forks along them"""
+        probe = p.fork()
+        v = self.sub(s.value, probe)
+        if not isinstance(v, ast.Call):
+            return None
+        try:
+            hps = self.call_hook(v)
+        except RecursionError:  # pragma: no cover
+            hps = None
+        if not hps:
+            return None
+        out: List[Path] = []
+        for hp in hps:
+            q = p.fork()
+            q.calls = list(probe.calls) + list(hp.calls)
+            q.conds = q.conds + tuple(c for c in hp.conds if c not in q.conds)
+            for k, val in hp.stores.items():
+                q.stores[k] = val
+            for k, val in hp.named_stores.items():
+                q.named_stores[k] = val
+            if hp.ret == RAISE:
+                q.ret, q.raised, q.end = RAISE, hp.raised, s
+                self.done.append(q)
+                continue
+            val = hp.ret if isinstance(hp.ret, ast.AST) else ast.Constant(None)
+            if isinstance(s, ast.Return):
+                q.ret, q.end = val, s
+                self.done.append(q)
+            elif isinstance(s, ast.Assign):
+                for t in s.targets:
+                    self.assign(t, clone_ast(val), q)
+                out.append(q)
+            else:
+                out.append(q)
+        return out
 
     def _literal_items(self, it, target):
         """elements of a literal list/tuple/dict (.items(), .keys(), .values()) or None"""
